@@ -223,15 +223,41 @@ def c15_arma(ctx, case):
 # ---------------------------------------------------------------------------
 # P == Q: modified Yule-Walker least squares over unbiased lags Q+1..lag
 # ---------------------------------------------------------------------------
-@sub("C15.myw", strategy=arma_case(equal=True, regions=("well",)), quick=500, thorough=20000,
+@st.composite
+def myw_case(draw):
+    if draw(st.integers(0, 9)) == 9:
+        # P = Q <= 4 with Q < lag < 2P: fewer equations than unknowns handed to the fast recursion.  The request is ill-posed
+        # (the unchanged code returns NaN for 2-10 % of such records, counted as excluded); when it does return numbers, any
+        # minimiser is a least-squares solution, so the objective-value clause applies
+        x = _draw_data(draw)
+        P = draw(st.integers(2, 4))
+        return {"x": x, "P": P, "Q": P, "lag": draw(st.integers(P + 1, 2 * P - 1)), "region": "under4"}
+    return draw(arma_case(equal=True, regions=("well",)))
+
+
+@sub("C15.myw", strategy=myw_case(), quick=500, thorough=20000,
      doc="P == Q: AR part == argmin sum_{m=Q+1..lag} |r[m] + sum_j a_j r[m-j]|^2, r = unbiased lag sums from the data")
 def c15_myw(ctx, case):
-    r = _run_arma(ctx, case)
-    if r is None:
-        return
-    x, a, b, rho = r
+    if case["region"] == "under4":
+        x = gen.realise(case["x"])
+        _arma_labels(ctx, case)
+        try:
+            with np.errstate(all="ignore"):
+                a, b, rho = spectrum.arma_estimate(x, case["P"], case["Q"], case["lag"])
+            a = np.asarray(a)
+        except (AssertionError, ValueError, ZeroDivisionError, IndexError, np.linalg.LinAlgError):
+            ctx.exclude("ill-posed inner least squares (P < lag < 2P with P <= 4): rejected")
+            return
+        if not (np.all(np.isfinite(a)) and np.all(np.isfinite(np.asarray(b))) and np.isfinite(rho)):
+            ctx.exclude("ill-posed inner least squares (P < lag < 2P with P <= 4): non-finite result")
+            return
+    else:
+        r = _run_arma(ctx, case)
+        if r is None:
+            return
+        x, a, b, rho = r
     P, Q, lag = case["P"], case["Q"], case["lag"]
-    assert P == Q and lag >= 2 * P
+    assert P == Q and (lag >= 2 * P or case["region"] == "under4")
     a = a[:P]
     R = ref.autocorr_unbiased(x, lag)
     A = np.array([[R[m - j] for j in range(1, P + 1)] for m in range(Q + 1, lag + 1)])
@@ -251,7 +277,7 @@ def c15_myw(ctx, case):
               "AR part does not minimise the modified Yule-Walker error: %.6g > minimum %.6g (P=Q=%d lag=%d cond=%.3g)"
               % (jgot, jmin, P, lag, c))
     # (ii) the coefficients themselves where the solution is well determined
-    if c <= 1e4:
+    if c <= 1e4 and case["region"] != "under4":
         tol = (1e-9 + 1e-11 * c * c) * max(1.0, float(np.max(np.abs(sol))))
         d = float(np.max(np.abs(a - sol)))
         ctx.check(d <= tol, "AR part differs from the least-squares solution of the modified Yule-Walker equations "
